@@ -298,12 +298,21 @@ def search(ctx):
     run(ctx)
 
 
+REPLAY_RERUNS = True
+
+
 def replay(ctx, case):
     """re-run the recorded history on the implementation (and the model) and say whether the property fails again"""
     inp = case["input"]
     print({k: inp[k] for k in ("ops", "note") if k in inp})
     print("recorded: observed", case.get("observed"), "expected", case.get("expected"))
     names = inp.get("history")
+    if case.get("stream") == "long_session" or isinstance(names, str):
+        n_v = len(ctx.violations)
+        long_session(ctx, ctx.rng, 4300)
+        again = ctx.violations[n_v:]
+        print("replayed the long session on the implementation:", ("VIOLATED again: " + str(again[0]["what"])) if again else "property held")
+        return 1 if again else 0
     if not names:
         return 0
     with_life = any(str(o).startswith("life") for o in inp.get("ops", []))
